@@ -172,7 +172,10 @@ GReplay ==
   /\ IF Replay /\ fails # <<>>
      THEN /\ gpc' = "replay" /\ ev' = Head(fails) /\ fails' = Tail(fails)
           /\ UNCHANGED <<fi, plan, att, gerr>>
-     ELSE /\ gpc' = "end" /\ UNCHANGED <<fi, plan, att, gerr, fails, ev>>
+     ELSE \* a Repeat whose filter also matches run-Finished re-emits it last
+          \/ /\ gpc = "replay" /\ gpc' = "end" /\ ev' = EvFinished
+             /\ UNCHANGED <<fi, plan, att, gerr, fails>>
+          \/ /\ gpc' = "end" /\ UNCHANGED <<fi, plan, att, gerr, fails, ev>>
 
 \* every disjunct except the last one emits ev'
 GNext == (GPre \/ GPre2 \/ GLate)
